@@ -82,12 +82,40 @@ func TestC07Guard(t *testing.T) {
 		{K: "delete", M: mWidget, A: 1},
 		{K: "find", M: mWidget},
 		{K: "delrange", M: mBook, A: 1},
+		{K: "tree", M: mDepot, A: 3, B: 4, V: 2},
+		{K: "tree", M: mSorter, A: 5, B: 5, V: 3},
+		{K: "create", M: mParcel, A: 6, V: 6},
+		{K: "batch", M: mCourier, A: 3, V: 1},
+		{K: "preload", M: mDepot, R: "Parcels"},
+		{K: "preload", M: mSorter, R: "Parcel"},
+		{K: "joins", M: mSorter, R: "Parcel"},
+		{K: "aappend", M: mCustoms, A: 1, B: 7, V: 1, R: "Parcels"},
+		{K: "aappend", M: mSorter, A: 2, B: 8, V: 1, R: "Parcel"},
+		{K: "afind", M: mCourier, A: 1, R: "Parcels"},
+		{K: "acount", M: mDepot, A: 1, R: "Parcels"},
+		{K: "areplace", M: mDepot, A: 1, B: 3, V: 2, R: "Parcels"},
+		{K: "updates", M: mParcel, A: 1, V: 5},
+		{K: "find", M: mParcel},
 	}
+	// operations that must fail, with the database's error
+	bad := map[string]string{
+		"badraw(Gadget 1 v1)":   "err=no such table: c07_missing_1",
+		"badtable(Gadget 1 v2)": "err=no such table: c07_absent_2",
+		"badexec(Gadget 1)":     "err=no such table: c07_gone_0",
+		"badcol(Gadget 1 v1)":   "err=no such column: no_such_column_1",
+	}
+	script = append(script, Op{K: "badraw", M: mGadget, A: 1, V: 1}, Op{K: "badtable", M: mGadget, A: 1, V: 2}, Op{K: "badexec", M: mGadget, A: 1}, Op{K: "badcol", M: mGadget, A: 1, V: 1})
 	for _, cfg := range []Case{{G: 1, Warm: "cold"}, {G: 1, Warm: "query", Prepare: true, SkipTx: true}} {
 		c := cfg
 		c.Programs = [][]Op{script}
 		first := runSerial(&c)
 		for i, r := range first.results[0] {
+			if want, isBad := bad[script[i].String()]; isBad || strings.HasPrefix(script[i].K, "bad") {
+				if !isBad || !strings.HasPrefix(r, want) {
+					t.Errorf("harness: operation %s must fail with %q (prepare=%v): %s", script[i], want, c.Prepare, r)
+				}
+				continue
+			}
 			if !strings.HasPrefix(r, "ok") && !strings.HasPrefix(r, "tx ok") {
 				t.Errorf("harness: operation %s does not work alone (prepare=%v): %s", script[i], c.Prepare, r)
 			}
@@ -99,6 +127,9 @@ func TestC07Guard(t *testing.T) {
 		second := runSerial(&c)
 		if d := compare(&c, first, second); d != "" {
 			t.Errorf("harness: two serial runs of one program differ:\n%s", d)
+		}
+		if r := first.results[0][len(script)-14]; !strings.Contains(r, "parcels=[Parcel{") {
+			t.Errorf("harness: Preload(Parcels) carries no parcels: %q", r)
 		}
 		if len(first.rows) < 10 {
 			t.Errorf("harness: final dump holds only %d rows", len(first.rows))
